@@ -65,6 +65,14 @@ def scenarios(tier, seed=0):
             spec["crop"] = {"name": "MaizeGDD", "planting": "05/01", "harvest": "08/30", "scale": None, "gddscale": 0.15, "kw": {}}
         spec["irr"] = irr_spec(1, {"SMT": smt}, None, 25, 10000, 100)
         yield {"kind": "spec", "spec": spec, "label": ["delayed-germination", thermal, smt, word]}
+    # crops whose (overridden) canopy parameters put the time to maximum canopy AFTER the start of senescence: the stage boundaries are
+    # not ordered as usual, and the stage-3 threshold differs from its neighbours
+    for name, kw in (("Barley", {"CGC_CD": 0.09}), ("Wheat", {"CGC_CD": 0.05}), ("Maize", {"CGC_CD": 0.06, "SenescenceCD": 70})):
+        for smt in ([40, 40, 80, 40], [70, 70, 20, 70]):
+            for word in ("dry", "warm"):
+                spec = A.catalogue_spec(name, word=word, iwc="FC", soil="SandyLoam", cropkw=kw)
+                spec["irr"] = irr_spec(1, {"SMT": smt}, None, 1000, 10000, 100)
+                yield {"kind": "spec", "spec": spec, "label": ["unordered-stage-boundaries", name, smt, word]}
     # the same IrrigationManagement object used by a second model after the user edited one of its settings (trying several
     # schedules / thresholds / depths in a loop): the second model must honour the NEW setting
     for edit in ("schedule", "smt", "depth", "interval", "maxirr"):
